@@ -45,7 +45,9 @@ DEPRECATED_LINES = ['Return value: (transfer full): x', 'Returns value: x', 'Ret
                     '@p: (in-out)', '@p: (attribute a b)', '@p: (attribute a)', '@p: (type <utf8>)',
                     '@p: (transfer full=1)', '@p (in): no colon', '@p: (in) no colon', '@: x', '@', ':', '::', ' : ',
                     'SECTION:x', 'Returns: (skip) (skip)', 'Stability: Unknown', 'Deprecated: x.y: z', '(skip)',
-                    '  (transfer full)', '((', '))', 'foo: (copy-func)', 'foo: (free-func x)']
+                    '  (transfer full)', '((', '))', 'foo: (copy-func)', 'foo: (free-func x)',
+                    # continuation lines that start well and are rejected as a whole
+                    '  (out) ((x)', '(transfer none) (in', '  (skip) ())', '(nullable) (optional) )', '(method) (a (b)']
 DEGENERATE = ['', ' ', '/**', '/** */', '/**/', '/***/', '/**\n*/', '/**\n */', '/**\n', '/*\n * x:\n */', '/** x: */',
               '/**\n * \n */', '/**\n *\n *\n */', '/**\n x:\n */', '/**\nx\n*/', '/**\n * x:\n', '/**\n * x: */',
               '/** foo:\n * @a: b\n */', 'int x; /**\n * foo:\n */ int y;', '/**\r\n * foo:\r\n */', '/**\r * foo:\r */',
